@@ -4,7 +4,8 @@ Pat(a, b, c, d) == [port |-> a, pmask |-> b, chan |-> c, cmask |-> d]
 \* port callback on 3; header callback on 3/1; bit-mask pattern (ports with bit 1 set)
 PatternsQuick == {Pat(3, 255, 0, 0), Pat(3, 255, 1, 255), Pat(2, 2, 0, 0)}
 \* + match-all, never-matching 0xFF port, channel-mask pattern
-PatternsThorough == PatternsQuick \cup {Pat(0, 0, 0, 0), Pat(255, 255, 0, 0), Pat(5, 255, 2, 2)}
+PatternsThorough == PatternsQuick \cup {Pat(0, 0, 0, 0), Pat(255, 255, 0, 0), Pat(5, 255, 2, 2),
+                                        Pat(5, 4, 0, 0), Pat(13, 255, 3, 0)}   \* bits outside the mask: never match
 HeadersQuick == {48, 49, 114}
 HeadersThorough == {48, 49, 114, 82, 147}
 ====
